@@ -1,5 +1,5 @@
 #!/bin/bash
-# rerun every stored benign variant against its listed properties
+# rerun every stored benign variant against its listed properties (default) or, with argument 'all', against all 20
 export GOFLAGS=-mod=mod GOPROXY=off GOSUMDB=off GOTOOLCHAIN=local
 one() {
   v=$1; name=$(basename $v)
@@ -8,7 +8,8 @@ one() {
   cp /verif/known_findings.json $t/verif/
   if ! (cd $t/repo && git apply --whitespace=nowarn $v/patch.diff 2>/dev/null); then echo "$name: NOAPPLY"; rm -rf $t; return; fi
   al=""
-  for p in $(jq -r '.properties[]' $v/meta.json); do
+  plist=$(jq -r '.properties[]' $v/meta.json); [ "$MODE" = all ] && plist=$(/verif/bin/sidecheck -list)
+  for p in $plist; do
     o=$(/verif/bin/sidecheck -property $p -dir $t/repo -verif $t/verif 2>&1)
     if ! echo "$o" | grep -q " tier="; then al="$al $p:[CHECKER-ERROR]"; fi
     if echo "$o" | grep -q "^VIOLATION"; then al="$al $p:[$(echo "$o" | grep -E '^(VIOLATED|UNDECIDED)' | awk '{print $2}' | sort -u | head -4 | tr '\n' ' ')]"; fi
@@ -17,4 +18,5 @@ one() {
   rm -rf $t
 }
 export -f one
+export MODE=${1:-listed}
 ls -d /verif/variants/benign/B*/ | sed 's#/$##' | xargs -P 6 -I{} bash -c "one {}"
